@@ -386,6 +386,16 @@ fn build_world(hid: u64) -> World {
             false,
             "leaf 2KSK+ZSK",
         ),
+        // the trust anchor is a key with the REVOKE flag (0x0080) set; it alone signs the root DNSKEY RRset,
+        // the unauthenticated ZSK signs the data: a revoked key must not validate anything (RFC 5011)
+        8 => (
+            vec![ZKey { pool: 0, flags: 257 | 0x0080, ksk: true, zsk: false }, ZKey { pool: 1, flags: 256, ksk: false, zsk: true }],
+            split(2, 3),
+            split(4, 5),
+            csk(6),
+            false,
+            "root anchor REVOKED, KSK+ZSK",
+        ),
         _ => (split(9, 10), split(11, 8), split(7, 6), split(5, 4), false, "KSK+ZSK other keys"),
     };
     let a = |x: u8| RData::A(A::new(192, 0, 2, x));
@@ -1402,6 +1412,19 @@ fn oracle(w: &World, q: &MName, qtype: u16, tampered: bool, genuine: &Obs, obs: 
     if let Obs::Panic(p) = obs {
         return Some(format!("validator panicked: {p}"));
     }
+    if w.hid == 8 {
+        // the only trust anchor is revoked: no chain exists, whatever the upstream sends
+        if let Obs::Ok(_, a, u) | Obs::Nsec(_, _, a, u) = obs {
+            if let Some(r) = a.iter().chain(u.iter()).find(|r| r.proof == Proof::Secure) {
+                return Some(format!(
+                    "record {} {} is Secure although the only trust anchor is a REVOKED key (flags bit 0x0080)",
+                    r.name,
+                    r.record_type()
+                ));
+            }
+        }
+        return None;
+    }
     let (ok, rc, ans, auth) = match obs {
         Obs::Ok(rc, a, u) => (true, *rc, a, u),
         Obs::Nsec(_, rc, a, u) => (false, *rc, a, u),
@@ -1671,7 +1694,9 @@ fn edit_text(e: &Edit) -> String {
 
 fn case(seed: u64, index: u64) -> CaseOut {
     let mut r = Rng::for_case(seed, index);
+    // one index in 40: the revoked-anchor hierarchy (8), where nothing may come back Secure
     let hid = r.below(N_HIER);
+    let hid = if index % 40 == 39 { 8 } else { hid };
     let w = world(hid);
     let qs = queries();
     let (q, qtype, qkind) = qs[r.below(qs.len() as u64) as usize].clone();
@@ -2129,7 +2154,7 @@ fn main() {
         "C07",
         &args,
         &cases,
-        "hierarchy (8 variants of root/tld/{leaf signed, island unsigned, evil signed adversary-owned, unsup algorithm-16}; CSK / KSK+ZSK / 3 keys; Ed25519 / P-256; anchor at root or root+tld) x 12 top-level queries x {genuine, one random record-level fault, two faults, 9 targeted multi-record attack scripts} placed on any response the validator consults; real signatures; non-trivial = validator consulted at least two upstream responses; distinct by (hierarchy, query, faults). Server family: proofs of 0..5 answer records x AD/CD/DO through the real front door + Catalog + a mock external zone handler (all vectors of length <= 3 in thorough).",
+        "hierarchy (8 variants + 1 with a REVOKED trust anchor, of root/tld/{leaf signed, island unsigned, evil signed adversary-owned, unsup algorithm-16}; CSK / KSK+ZSK / 3 keys; Ed25519 / P-256; anchor at root or root+tld) x 12 top-level queries x {genuine, one random record-level fault, two faults, 9 targeted multi-record attack scripts} placed on any response the validator consults; real signatures; non-trivial = validator consulted at least two upstream responses; distinct by (hierarchy, query, faults). Server family: proofs of 0..5 answer records x AD/CD/DO through the real front door + Catalog + a mock external zone handler (all vectors of length <= 3 in thorough).",
         serde_json::json!({"hierarchies": N_HIER}),
     );
 }
